@@ -1551,6 +1551,13 @@ func cmpC16(c hx.Case, impl any, reply map[string]any) hx.Verdict {
 	default:
 		if mp != "done" {
 			md = append(md, "impl returned, model "+mp)
+		} else if jbool(model, "ambiguous") {
+			// ReferencesComponentInRootDocument ranges over a Go map: with two root components that are whole-document
+			// references to the same file, which name is returned is not determined. Names are then not compared;
+			// the predicted property outcome does not depend on the choice and still is.
+			if jbool(model, "specok") != implOK {
+				md = append(md, fmt.Sprintf("model predicts property outcome %v, implementation shows %v (%s)", jbool(model, "specok"), implOK, strings.Join(bad, "; ")))
+			}
 		} else {
 			if !sameStrs(toStrs(im["refs"]), toStrs(model["refs"]), true) {
 				md = append(md, fmt.Sprintf("final $ref texts: impl %v model %v", im["refs"], model["refs"]))
